@@ -521,30 +521,36 @@ func (c *Ctx) rejectionReasons(f *ssa.Function, env Env, boolFalse bool, depth i
 				return
 			}
 		}
-		// err != nil of a module checker's error: descend
-		if bo, ok := cond.(*ssa.BinOp); ok && (bo.Op == token.NEQ || bo.Op == token.EQL) && depth < 3 {
+		// err != nil: the error tested, looked through a named-result cell (`err = f(); if err != nil` with a defer);
+		// an error produced by a module checker is replaced by that checker's own reasons
+		if bo, ok := cond.(*ssa.BinOp); ok && (bo.Op == token.NEQ || bo.Op == token.EQL) {
 			var ev ssa.Value
 			if k, isK := bo.Y.(*ssa.Const); isK && k.IsNil() {
 				ev = bo.X
 			} else if k, isK := bo.X.(*ssa.Const); isK && k.IsNil() {
 				ev = bo.Y
 			}
-			if ev != nil && isErrType(ev.Type()) && (bo.Op == token.NEQ) == truth {
-				var cl *ssa.Call
-				switch y := ev.(type) {
-				case *ssa.Call:
-					cl = y
-				case *ssa.Extract:
-					cl, _ = y.Tuple.(*ssa.Call)
-				}
-				if cl != nil {
-					if g := cl.Call.StaticCallee(); g != nil && inModule(g) && g.Blocks != nil {
-						for _, r := range c.rejectionReasons(g, c.calleeEnv(&cl.Call, g, env), false, depth+1) {
-							set[r] = true
+			if ev != nil && isErrType(ev.Type()) {
+				ev = cellValue(ev)
+				if (bo.Op == token.NEQ) == truth && depth < 3 {
+					var cl *ssa.Call
+					switch y := ev.(type) {
+					case *ssa.Call:
+						cl = y
+					case *ssa.Extract:
+						cl, _ = y.Tuple.(*ssa.Call)
+					}
+					if cl != nil {
+						if g := cl.Call.StaticCallee(); g != nil && inModule(g) && g.Blocks != nil {
+							for _, r := range c.rejectionReasons(g, c.calleeEnv(&cl.Call, g, env), false, depth+1) {
+								set[r] = true
+							}
+							return
 						}
-						return
 					}
 				}
+				set[fmt.Sprintf("(%s %s nil)=%v", c.Path(ev, env), bo.Op.String(), truth)] = true
+				return
 			}
 		}
 		set[fmt.Sprintf("%s=%v", c.Path(cond, env), truth)] = true
@@ -586,6 +592,9 @@ func (c *Ctx) rejectionReasons(f *ssa.Function, env Env, boolFalse bool, depth i
 		}
 		if !failing {
 			continue
+		}
+		if f.Recover != nil && b == f.Recover {
+			continue // the landing pad after a recovered panic: not a decision of this function
 		}
 		if len(b.Preds) == 0 {
 			set["unconditional=true"] = true
@@ -785,4 +794,30 @@ func (c *Ctx) storesIntoObj(o *builtObj) []fieldStore {
 		}
 	}
 	return out
+}
+
+// cellValue: v is a load of a local cell; returns the value last stored into the cell before the load in the same
+// block (v itself if there is none).
+func cellValue(v ssa.Value) ssa.Value {
+	ld, ok := v.(*ssa.UnOp)
+	if !ok || ld.Op != token.MUL || ld.Block() == nil {
+		return v
+	}
+	al, ok := ld.X.(*ssa.Alloc)
+	if !ok {
+		return v
+	}
+	var last ssa.Value
+	for _, in := range ld.Block().Instrs {
+		if in == ssa.Instruction(ld) {
+			break
+		}
+		if st, isS := in.(*ssa.Store); isS && st.Addr == ssa.Value(al) {
+			last = st.Val
+		}
+	}
+	if last != nil {
+		return last
+	}
+	return v
 }
